@@ -7,6 +7,7 @@ CONSTANTS
   FaultDepth = 1
   MaxFrames = 2
   MaxCompound = 3
+  MaxHist = 3
   AllPTs = FALSE
 INVARIANTS TypeOK RoundTrip RoundTripList Framing DispatchBack UniqueKind NoTrunc Stable DecodedWF Remarshal ListRemarshal AllAccepted DestStable
 CHECK_DEADLOCK FALSE
